@@ -70,7 +70,7 @@ var golden = map[string]string{"golden/alpha.txt": "alpha\n", "golden/beta.txt":
 var goldenNames = []string{"golden/alpha.txt", "golden/beta.txt", "golden/aba.txt", "golden/empty.txt", "input.txt", "missing.txt"}
 
 var cmds = []string{"execfg", "execfg", "execfg", "exececho", "execbg", "execbg", "wait", "wait", "waitname", "kill", "stdout", "stdout", "stderr", "cmpout", "cmperr", "stdin", "exists",
-	"stop", "skip", "unknown", "probe", "probe", "probe", "failcmd", "phase", "snap", "snap", "exists2", "exists2", "execbad", "longprobe"}
+	"stop", "skip", "unknown", "probe", "probe", "probe", "failcmd", "phase", "snap", "snap", "exists2", "exists2", "execbad", "longprobe", "execbadbg"}
 
 func genPlan(t *rapid.T, tier string) any {
 	p := &Plan{}
@@ -101,7 +101,7 @@ func genPlan(t *rapid.T, tier string) any {
 	for i := 0; i < n; i++ {
 		if !bgHeavy && rapid.IntRange(0, 14).Draw(t, "stdinchain") == 0 {
 			// who consumes the standard input set by 'stdin'? exactly the next exec, whatever becomes of it
-			mid := Line{Cmd: rapid.SampledFrom([]string{"execbad", "execbad", "execbg", "execfg", "probe"}).Draw(t, "consumer"), Neg: rapid.Bool().Draw(t, "consumerneg"),
+			mid := Line{Cmd: rapid.SampledFrom([]string{"execbad", "execbad", "execbg", "execfg", "probe", "execbadbg"}).Draw(t, "consumer"), Neg: rapid.Bool().Draw(t, "consumerneg"),
 				Code: rapid.SampledFrom([]int{0, 1}).Draw(t, "consumercode"), Base: 3}
 			p.Lines = append(p.Lines, Line{Cmd: "stdin", Word: rapid.SampledFrom([]int{0, 1, 4}).Draw(t, "stdinfile")}, mid, Line{Cmd: "exececho", Base: 2}, Line{Cmd: "snap"})
 			continue
@@ -274,8 +274,9 @@ func (e *evaluator) step(l Line, probes *[]string) (ok bool) {
 		e.stdin = ""
 		success := l.Code == 0
 		return success != neg
-	case "execbad":
-		// a file that exists but is not executable: the command cannot start
+	case "execbad", "execbadbg":
+		// a file that exists but is not executable: the command cannot start (in the background
+		// variant nothing is left to wait for)
 		e.stdout, e.stderr, e.stdin = "", "", ""
 		return neg
 	case "longprobe":
@@ -472,6 +473,8 @@ func render(p *Plan, factor []int) (string, verdict, int) {
 			text += fmt.Sprintf("exec stub %s code=%d stdin=echo", run, l.Code)
 		case "execbad":
 			text += "exec ./input.txt arg"
+		case "execbadbg":
+			text += "exec ./input.txt arg &"
 		case "longprobe":
 			text += fmt.Sprintf("probe p%d %s", l.Word, strings.Repeat("x", 70000))
 		case "execbg":
@@ -735,7 +738,7 @@ func numbered(text string) string {
 var harness = &simcheck.Harness{
 	Property: "C01",
 	Level:    "exploration",
-	Rule: "rapid draws a script of up to 12 lines over the engine's command subset ([cond]/[!cond] guards with a custom Condition and OS conditions, !, a stateful custom condition, a custom condition whose evaluation reports an error (the line is then the offending one), exec foreground / background / named with seeded exit code, output and run time, foreground programs whose descendant keeps the output pipes open for 1.5 s or 40 s after they exit, exec of a file that cannot be started, a 70 KB line, " +
+	Rule: "rapid draws a script of up to 12 lines over the engine's command subset ([cond]/[!cond] guards with a custom Condition and OS conditions, !, a stateful custom condition, a custom condition whose evaluation reports an error (the line is then the offending one), exec foreground / background / named with seeded exit code, output and run time, foreground programs whose descendant keeps the output pipes open for 1.5 s or 40 s after they exit, exec (foreground and background) of a file that cannot be started, a 70 KB line, " +
 		"wait [name], kill -INT, stdout / stderr with literal patterns and -count, cmp stdout|stderr file, stdin, exists, one- and two-argument exists, stop, skip, an unknown command, probe / snap (exact stdout and stderr as the script sees them) / failing custom commands, phase comments) and ContinueOnError; " +
 		"lines whose meaning would depend on timing or is undocumented in the current state are dropped at rendering; each script runs under 2 (quick) / 3 (thorough) latency assignments with different schedule seeds; " +
 		"non-trivial = the expected verdict is not a plain pass or some probe ran; distinct by the hash of script and decision trace",
